@@ -127,8 +127,11 @@ def run(tier, seed, only=None):
     cfg = [("symL_ny2", 2, True, "tube"), ("full_ny3", 3, False, "tube"), ("symL_ny3[numpy flag]", 3, np.True_, "tube"), ("full_ny5[numpy flag]", 5, np.False_, "tube")]
     if tier == "thorough":
         cfg += [("symL_ny4", 4, True, "tube"), ("symL_ny3_wb", 3, True, "wingbox"), ("full_ny7", 7, False, "tube"), ("full_ny9", 9, False, "tube"), ("symL_ny6", 6, True, "tube")]
+    cfg.append(("full_ny3 off the centreline", 3, False, "tube"))
     for (cn, ny, symm, kind) in cfg:
         s = K.surface(2, ny, symm, fem_model_type=kind) if kind == "wingbox" else K.surface(2, ny, symm)
+        if "off the centreline" in cn:
+            s["mesh"] = s["mesh"] + np.array([0.0, 7.0, 0.0])  # the clamped node is the middle one, wherever the surface sits
         ch = Chain(s)
         ch.encode(rep)
         nodes = symarray("nodes", (ny, 3))
